@@ -108,7 +108,7 @@ Lemma keyn_neq base i j : i <> j -> str_eqb (keyn base i) (keyn base j) = false.
 Proof. intros H. unfold keyn. rewrite str_eqb_app_l. apply str_eqb_neq. intros E. apply dec_inj in E. auto. Qed.
 
 Lemma reserved_prefix p k : In p reserved_prefixes -> starts_with p k = true -> reserved k = true.
-Proof. intros I S. unfold reserved. apply existsb_exists. exists p. auto. Qed.
+Proof. intros I S. unfold reserved. apply Bool.orb_true_iff. left. apply existsb_exists. exists p. auto. Qed.
 
 Lemma reserved_keyn p i : In p reserved_prefixes -> reserved (keyn p i) = true.
 Proof. intros I. apply (reserved_prefix p); auto. apply starts_with_app. Qed.
